@@ -35,11 +35,16 @@ Init == l = 1 /\ bad = "" /\ Fresh
 
 (* jobs: token -> record;  cur: <<owner, ref>> -> token of the job the owner currently remembers;    *)
 (* down: receiver -> time its termination was requested                                              *)
+(* a call under a reference whose loop job is alive: the library keeps the running job (the queue refuses the     *)
+(* duplicate key and the error is dropped); the property does not say what becomes of the second call, so the    *)
+(* monitor expects nothing of its token (kind "dup") - but the running job stays the one the reference designates *)
 OnSched ==
     /\ Ev.e = "Sched"
-    /\ jobs' = Put(jobs, Ev.m, [owner |-> Ev.a, ref |-> Ev.r, recv |-> Ev.x, kind |-> Ev.k, d |-> Ev.d, tb |-> Ev.tb, ta |-> Ev.t,
-                                fires |-> 0, lastFire |-> -1, got |-> 0, dl |-> 0, stopReq |-> -1, stop |-> -1, why |-> ""])
-    /\ cur' = Put(cur, <<Ev.a, Ev.r>>, Ev.m)
+    /\ LET c == Get(cur, <<Ev.a, Ev.r>>, -1)
+           dup == c # -1 /\ jobs[c].kind = "loop" /\ jobs[c].stop = -1
+       IN /\ jobs' = Put(jobs, Ev.m, [owner |-> Ev.a, ref |-> Ev.r, recv |-> Ev.x, kind |-> IF dup THEN "dup" ELSE Ev.k, d |-> Ev.d, tb |-> Ev.tb, ta |-> Ev.t,
+                                      fires |-> 0, lastFire |-> -1, got |-> 0, dl |-> 0, stopReq |-> -1, stop |-> -1, why |-> ""])
+          /\ cur' = IF dup THEN cur ELSE Put(cur, <<Ev.a, Ev.r>>, Ev.m)
     /\ UNCHANGED <<bad, down>>
 
 Hit == {m \in DOMAIN jobs : jobs[m].owner = Ev.a /\ jobs[m].stop = -1 /\ (Ev.r = "*" \/ (jobs[m].ref = Ev.r /\ Get(cur, <<Ev.a, Ev.r>>, -1) = m))}
@@ -67,6 +72,7 @@ J == jobs[Ev.m]
 OnFire ==
     /\ Ev.e = "Fire"
     /\ IF ~Known THEN bad' = Flag("FireOfUnknownJob") /\ UNCHANGED jobs
+       ELSE IF J.kind = "dup" THEN UNCHANGED <<bad, jobs>>
        ELSE /\ jobs' = [jobs EXCEPT ![Ev.m].fires = @ + 1, ![Ev.m].lastFire = Ev.t]
             /\ bad' = IF J.stop # -1 /\ Ev.t > J.stop + Grace THEN Flag("NoFiringAfter." \o J.why)
                       ELSE IF J.kind # "cron" /\ Ev.t < J.tb + (J.fires + 1) * J.d THEN Flag("NotBeforeItsInstant")
@@ -78,6 +84,7 @@ OnFire ==
 OnDeliv ==
     /\ Ev.e = "Deliv"
     /\ IF ~Known THEN bad' = Flag("DeliveryOfUnknownJob") /\ UNCHANGED jobs
+       ELSE IF J.kind = "dup" THEN UNCHANGED <<bad, jobs>>
        ELSE /\ jobs' = [jobs EXCEPT ![Ev.m].got = @ + 1]
             /\ bad' = IF J.stop # -1 /\ Ev.t > J.stop + DelivGrace THEN Flag("NoDeliveryAfter." \o J.why)
                       ELSE IF J.kind # "cron" /\ Ev.t < J.tb + (J.got + J.dl + 1) * J.d THEN Flag("NotBeforeItsInstant")
@@ -90,6 +97,7 @@ OnDeliv ==
 OnDL ==
     /\ Ev.e = "DL"
     /\ IF ~Known THEN bad' = Flag("DeliveryOfUnknownJob") /\ UNCHANGED jobs
+       ELSE IF J.kind = "dup" THEN UNCHANGED <<bad, jobs>>
        ELSE /\ jobs' = [jobs EXCEPT ![Ev.m].dl = @ + 1]
             /\ bad' = IF J.stop # -1 /\ Ev.t > J.stop + DelivGrace THEN Flag("NoDeadLetterAfter." \o J.why)
                       ELSE IF J.recv \notin DOMAIN down THEN Flag("DeadLetterOnlyForDeadReceiver")
@@ -105,7 +113,7 @@ OnRecvDown ==
 (* lower bounds at the end of a healthy run: what was due while the job was alive has arrived       *)
 Until(j, tEnd) == IF j.stopReq # -1 THEN j.stopReq ELSE tEnd
 Expected(j, tEnd) == LET span == Until(j, tEnd) - Slack - j.ta IN
-                     IF span < j.d THEN 0 ELSE IF j.kind = "once" THEN 1
+                     IF span < j.d \/ j.kind = "dup" THEN 0 ELSE IF j.kind = "once" THEN 1
                      ELSE IF j.kind = "cron" THEN (span \div j.d) - 1      \* aligned to the wall clock: the first period may be partial
                      ELSE span \div j.d
 Arrived(j) == j.got + j.dl
